@@ -7,6 +7,10 @@
      wr s nblk esz hex | wrz s nblk esz
      C++: xcp x y | xclr x | xapp x hex | xins x off hex | xset x hex | xsetz x n | xsets x hex | xasl x s
           xmks s y | xshf s n | xtrm s n
+     class templates (harness/c04_tpl.cpp), case = T<family> ops...; family d u k q r p m:
+          tcp x y | tcc x y | tclr x | tnew x len | tins x pos hex | tset x pos hex | trsv x len | trsz x len | tdet x
+          tget x pos | toff x hex | tcmp x | tswp x p1 p2 | tunu x | mset x key val | mapp x key val
+          mget x key | mval x key | mall x
    prints "M <id> tok..." (mechanism model) and "S <id> tok..." (specification);
    token = res|views|partition|mech  (S: res|views), see harness/c04_array.c *)
 let ni s = nat_of_int (int_of_string s)
@@ -52,6 +56,44 @@ let rec parse toks = match toks with
   | "xtrm" :: s :: n :: r -> OXTrim (ni s, ni n) :: parse r
   | t :: _ -> failwith ("bad op " ^ t)
 
+(* ---- class templates: element size, unique_array, key size of the family *)
+type rdkind = RNone | RGet of tpos | ROff of n list | RUnused | RMGet of n list | RMVal of n list option
+let family f = match f with
+  | "Td" -> (8, false) | "Tu" -> (4, false) | "Tk" -> (12, false) | "Tq" -> (8, true) | "Tr" -> (12, true)
+  | "Tp" -> (8, false) | "Tm" -> (8, false) | _ -> failwith ("bad family " ^ f)
+let tpos s = let v = int_of_string s in if v < 0 then PBack (nat_of_int (-v - 1)) else PFwd (nat_of_int v)
+let optpos s = let v = int_of_string s in if v < 0 then None else Some (nat_of_int v)
+let u32 s = let v = int_of_string s in List.init 4 (fun k -> n_of_int ((v lsr (8 * k)) land 255))
+let rec tparse fam toks =
+  let (tr, uq) = family fam in
+  let tr = nat_of_int tr in
+  let ks = nat_of_int 4 in
+  let next r = tparse fam r in
+  match toks with
+  | [] -> []
+  | "tcp" :: x :: y :: r | "tcc" :: x :: y :: r -> (OXAssign (ni x, ni y), RNone) :: next r
+  | "tclr" :: x :: r ->
+    ((if fam = "Tp" then OTNew (ni x, tr, uq, O) else OClone (ni x, None)), RNone) :: next r
+  | "tnew" :: x :: n :: r ->
+    ((match optpos n with Some k -> OTNew (ni x, tr, uq, k) | None -> OClone (ni x, None)), RNone) :: next r
+  | "tins" :: x :: p :: h :: r -> (OTInsert (ni x, tr, uq, tpos p, bytes_of_hex h), RNone) :: next r
+  | "tset" :: x :: p :: h :: r -> (OTStore (ni x, tr, uq, tpos p, bytes_of_hex h), RNone) :: next r
+  | "trsv" :: x :: n :: r -> (OTReserve (ni x, tr, uq, tpos n), RNone) :: next r
+  | "trsz" :: x :: n :: r -> (OTResize (ni x, tr, uq, tpos n), RNone) :: next r
+  | "tdet" :: x :: r -> (OTDetach (ni x, tr, uq), RNone) :: next r
+  | "tget" :: x :: p :: r -> (OTRead (ni x), RGet (tpos p)) :: next r
+  | "toff" :: x :: h :: r -> (OTRead (ni x), ROff (bytes_of_hex h)) :: next r
+  | "tunu" :: x :: r -> (OTRead (ni x), RUnused) :: next r
+  | "tcmp" :: x :: r -> (OPCompact (ni x, tr), RNone) :: next r
+  | "tswp" :: x :: p :: q :: r -> (OPSwap (ni x, tr, optpos p, optpos q), RNone) :: next r
+  | "mset" :: x :: k :: v :: r -> (OMSet (ni x, ks, tr, u32 k, u32 v), RNone) :: next r
+  | "mapp" :: x :: k :: v :: r -> (OTInsert (ni x, tr, uq, PEnd, u32 k @ u32 v), RNone) :: next r
+  | "mget" :: x :: k :: r -> (OTRead (ni x), RMGet (u32 k)) :: next r
+  | "mval" :: x :: k :: r -> (OTRead (ni x), RMVal (Some (u32 k))) :: next r
+  | "mall" :: x :: r -> (OTRead (ni x), RMVal None) :: next r
+  | "flg" :: x :: f :: r -> (OFlags (ni x, flag f 1, flag f 2), RNone) :: next r
+  | t :: _ -> failwith ("bad template op " ^ t)
+
 let i = int_of_nat
 let show_out full o = match o with
   | ODone (n, m) -> if full then Printf.sprintf "D:%d/%d" (i n) (i m) else Printf.sprintf "D:%d" (i n)
@@ -83,10 +125,51 @@ let show_m (st, out) =
 
 let show_s (vs, out) = show_out false out ^ "|" ^ show_views vs
 
+(* what a read-only template operation returns: a function of the value of the target handle *)
+let read_of fam o rd (vs : (bool * (nat * n list) option) list) =
+  let (tr, _) = family fam in
+  let tr = nat_of_int tr and ks = nat_of_int 4 in
+  let x = i (target o) in
+  if x >= List.length vs then "" else
+  let l = svec (snd (List.nth vs x)) in
+  match rd with
+  | RNone -> ""
+  | RGet p -> ";r=" ^ (match elem_at l tr p with Some e -> hex_of_bytes e | None -> "none")
+  | ROff e -> if List.length e <> i tr then "" else
+              ";r=" ^ (match offset_of l tr e with Some k -> string_of_int (i k) | None -> "-1")
+  | RUnused -> ";r=" ^ string_of_int (i (unused_of l tr))
+  | RMGet k -> ";r=" ^ (match map_get l ks tr k with Some e -> hex_of_bytes e | None -> "none")
+  | RMVal k -> ";r=" ^ hex_of_bytes (map_values l ks tr k)
+(* live elements of the instance-counting element type = elements of all live blocks of that type *)
+let live_count st tr =
+  List.fold_left (fun acc ob -> match ob with
+    | Some b when i b.btr = tr -> acc + i b.bused / tr
+    | _ -> acc) 0 st.sheap
+let ins_views tok extra =
+  if extra = "" then tok else
+  match String.split_on_char '|' tok with
+  | res :: views :: rest -> String.concat "|" (res :: (views ^ extra) :: rest)
+  | _ -> tok
+
 let () =
   let ic = open_in Sys.argv.(1) in
   List.iter (fun line ->
     match split_ws line with
+    | id :: fam :: tops when String.length fam = 2 && fam.[0] = 'T' ->
+      let (tr, uq) = family fam in
+      let st = init (nat_of_int 4) (nat_of_int 2) in
+      (* pointer_array(long len = 0): every handle starts with an empty block *)
+      let st = if fam <> "Tp" then st else
+        List.fold_left (fun st k -> fst (step st (OTNew (nat_of_int k, nat_of_int tr, uq, O)))) st [0; 1; 2; 3] in
+      let pops = tparse fam tops in
+      let ops = List.map fst pops in
+      let counted = fam = "Tk" || fam = "Tr" in
+      let ms = List.map2 (fun (o, rd) (st', out) ->
+          ins_views (show_m (st', out)) (if accepted out then read_of fam o rd (abs st') else "")
+          ^ (if counted then Printf.sprintf "|k=%d" (live_count st' tr) else "")) pops (run st ops) in
+      let ss = List.map2 (fun (o, rd) (vs, out) -> show_s (vs, out) ^ (if accepted out then read_of fam o rd vs else "")) pops (srun st (abs st) ops) in
+      Printf.printf "M %s %s\n" id (String.concat " " ms);
+      Printf.printf "S %s %s\n" id (String.concat " " ss)
     | id :: ops ->
       let st = init (nat_of_int 4) (nat_of_int 2) in
       let ops = parse ops in
